@@ -87,3 +87,23 @@ PROPS["C02"] = dict(
         dict(name="fuzz", fuzz="FuzzDelivery", fuzztime=120),
     ],
 )
+
+PROPS["C03"] = dict(
+    pkg="c03", level="exploration",
+    technique="model-based stateful property testing (rapid): generated writer-configuration histories vs a reference writer-set model; child processes for the stdout/stderr fall-back",
+    claim=("Generated histories of the 11 writer operations (as methods and as New(...) options, incl. nil writers, removes of never-added "
+           "writers, operations on fresh loggers) over a pool of 6 recording writers of 4 kinds and up to 3 loggers are run against a "
+           "reference model; every probe record (15 severities incl. registered/unregistered custom levels and Off) must reach exactly the "
+           "model's destinations, LevelSettable destinations must have been told the severity before their Write, and no operation may "
+           "panic. The package-default stdout/stderr fall-back is observed in re-executed child processes. Exploration of sampled histories."),
+    note="Removing a writer that occurs more than once in a list is not generated (statement silent on duplicates); os.Stdout/os.Stderr themselves are not pool members. In-process, per-logger default lists are observed through swapped os.Stdout/os.Stderr variables; the process-wide default writer only in the child-process stage.",
+    rule=("rapid draws 1-3 loggers (roots/children, optionally created with 1-4 writer options) and up to 30 steps of writer operations and "
+          "probes, then probes every logger at Info, Error and a drawn severity. Non-trivial: the history contains a remove or reset that "
+          "changed the model state, or a probe answered by per-level writers or at a custom level; distinct = (operation-name sequence, class set)."),
+    assumptions=["each record carries a unique probe token, counted in the captured streams",
+                 "all loggers are at level Always so that every severity except Off is admitted (gating is C01)"],
+    stages=[
+        dict(name="histories", run="^TestRoutingHistories$", quick=20000, thorough=800000, shards=16, timeout_thorough=3000),
+        dict(name="child", run="^TestStdFallbackChild$", quick=600, thorough=16000, shards=16, timeout_thorough=3000),
+    ],
+)
